@@ -39,9 +39,13 @@
 (*   NegCharacterised  s = -1 /\ q > 0  =>  the tree contains a product or  *)
 (*                     quotient with a negative constant / negative divisor *)
 (*   TransCharacterised  the symbolic root law can only fail at powu, rpow  *)
-(* Probes that are *expected to fail on the code as transcribed* (each run  *)
-(* separately; a counterexample is a design-level finding which the harness *)
-(* reproduces on the real NumberError):  NonNegative, TransLaw.             *)
+(*   NonNegative, TransLaw  sigma >= 0; the logarithmic term of powers.     *)
+(*     With AbsFix = LogFix = TRUE (err_num.py as repaired: np.abs in * and *)
+(*     /, log(base), abs(log(other))) these are ordinary invariants.  With  *)
+(*     the constants FALSE Rule transcribes the code as it was found; they  *)
+(*     then are probes *expected to fail* (each run separately; the         *)
+(*     counterexample is a design-level finding which the harness           *)
+(*     reproduces on the real NumberError).                                 *)
 EXTENDS Integers, Sequences, FiniteSets, TLC, Json, IOUtils, SequencesExt
 
 CONSTANTS ULeaves,     \* set of <<vn, vd, en, ed>>
